@@ -442,7 +442,7 @@ func main() {
 	cfg := vh.ParseFlags()
 	r := vh.NewRand(cfg.Seed)
 	kv.RegisterMerger("verif-c01", func(fl kv.Flusher) (kv.Merger, error) { return &merger{fl}, nil })
-	out := vh.NewOut(cfg.Out, "From Coq Require Import List Arith Bool.\nImport ListNotations.\nFrom LinDBV.C01 Require Import Model Check.\nOpen Scope nat_scope.\n")
+	out := vh.NewOut(cfg.Out, "From Coq Require Import List Arith Bool.\nImport ListNotations.\nFrom LinDBV.C01 Require Import Model Check.\nFrom LinDBV.C01 Require Families.\nOpen Scope nat_scope.\n")
 	out.ShardSize = 4
 	root, err := os.MkdirTemp("", "verif-c01-")
 	if err != nil {
@@ -466,6 +466,8 @@ func main() {
 		}
 		runHistory(out, root, i+1, sc)
 	}
+	famID := cfg.N + 1
+	familiesCases(out, root, r, cfg.N/2+2, &famID)
 	out.Notes = append(out.Notes, "an image is a copy of the store directory taken at the scheduling point before a file-system operation (table create/close, manifest create/append, CURRENT.tmp write, rename, manifest/table removal) or after an operation; buffered table bytes that have not reached the file are not in the image, as after process death")
 	out.Finish()
 }
